@@ -371,6 +371,56 @@ def r09_4(ctx: Ctx) -> None:
            form=txt(loop.iter))
 
 
+SECMET = "antismash/common/secmet/"
+
+
+def r09_5(ctx: Ctx) -> None:
+    """ the codon_start frameshift is applied once per loaded feature: the base loader shifts the location when it finds
+        the qualifier among the leftovers, so a subclass that also hands an already shifted location to its constructor
+        shifts twice (the gene is then out of frame with its own translation) """
+    from ..cfg import CFG
+    count = 0
+    for info in sorted((c for c in ctx.repo.subclasses("Feature") if c.module.rel.startswith(SECMET)), key=lambda c: c.qual):
+        func = next((n for n in info.node.body if isinstance(n, ast.FunctionDef) and n.name == "from_biopython"), None)
+        if func is None or "codon_start" not in txt(func):
+            continue
+        rel = info.module.rel
+        qual = f"{info.name}.from_biopython"
+        cfg = CFG(func)
+        supers = [c for c in calls(func) if txt(c.func) == "super().from_biopython"]
+        pops = [c for c in calls(func) if last_attr(c) == "pop" and c.args and isinstance(c.args[0], ast.Constant)
+                and c.args[0].value == "codon_start"]
+        ctors = [c for c in calls(func) if call_name(c) == "cls" and c.args]
+        if not supers or not ctors:
+            continue
+        count += 1
+        ctx.repo.consulted.add(rel)
+        for ctor in ctors:
+            shifted = []
+            stack = [(ctor.args[0], ctor)]
+            seen = set()
+            while stack:
+                expr, at = stack.pop()
+                for node in ast.walk(expr):
+                    if isinstance(node, ast.Call) and "frameshift" in last_attr(node) + call_name(node):
+                        shifted.append(txt(node)[:70])
+                    if isinstance(node, ast.Name) and node.id not in seen:
+                        seen.add(node.id)
+                        for d in cfg.reaching_defs(node.id, cfg.n(at)):
+                            dnode = cfg.nodes[d].ast if d >= 0 else None
+                            if isinstance(dnode, (ast.Assign, ast.AnnAssign)) and dnode.value is not None:
+                                stack.append((dnode.value, dnode))
+            popped_first = any(cfg.dominates(cfg.n(pp), cfg.n(supers[0])) for pp in pops)
+            ok = not shifted or popped_first
+            ctx.ob("R09.5", rel, ctor, qual, f"location handed to {txt(ctor)[:40]}", ok,
+                   "the location given to the constructor is the unshifted one when the base loader is still going to apply "
+                   "the codon_start qualifier (one frameshift per load)",
+                   detail="" if ok else f"already shifted by {shifted[0]} and shifted again by the base loader",
+                   form=f"constructor location derives from a frameshift: {bool(shifted)}; codon_start popped before super(): {popped_first}")
+    if count < 1:
+        raise AnalysisError("no feature loader handling codon_start before delegating to the base loader was found")
+
+
 def _split(test: ast.AST):
     from ..flow import literals
     out = []
@@ -392,3 +442,5 @@ def run(ctx: Ctx) -> None:
     r09_3(ctx)
     ctx.rule("R09.4", "exon membership tests of the compound sub-location walk are half-open", floor=4)
     r09_4(ctx)
+    ctx.rule("R09.5", "codon_start is applied once per loaded feature", floor=1)
+    r09_5(ctx)
